@@ -438,6 +438,25 @@ Section Monitors.
              && (if is_auth_redirect r then covers r CMain && covers r CAcc && covers r CRef else true)
         else true).
 
+  (* C04, completion: a response that completes a login (callback answered by the
+     redirect to a local path after a successful code exchange) or a refresh (the
+     request is forwarded after a successful refresh) stores, in that very
+     response, an authenticated main cookie and the ID token it obtained -- a
+     session that "keeps working" has to be in the browser first *)
+  Definition is_lpath (l : option location) : bool := match l with Some (LPath _) => true | _ => false end.
+
+  Definition stores_session (id : istr) (r : response) : bool :=
+    emits_auth r && match emitted_id r with Some t => tval_eqb t (TTok id) | None => false end.
+
+  Definition c04_step (ans : option answer) (r : response) : bool :=
+    match ans, r_calls r with
+    | Some (AOk id _), [PExchange _ _ _ _] =>
+        if N.eqb (r_status r) 302 && is_lpath (r_loc r) then stores_session id r else true
+    | Some (AOk id _), [PRefresh _] =>
+        if forwarded r then stores_session id r else true
+    | _, _ => true
+    end.
+
 End Monitors.
 
 (* ------------------------------------------------------------------ applying the step monitors to a case *)
@@ -451,6 +470,7 @@ Definition steps_all (c : wcase)
 
 Definition st_c01 E cfg a (e : istr) (s : wstep) := c01_step E cfg a (w_now s) (w_rq s) (w_ans s) (w_obs s).
 Definition st_c03 E cfg (a e : istr) (s : wstep) := c03_step E cfg (w_now s) (w_rq s) (w_ans s) (w_obs s).
+Definition st_c04 (E : env) (cfg : config) (a e : istr) (s : wstep) := c04_step E (w_ans s) (w_obs s).
 Definition st_c06 E cfg (a e : istr) (s : wstep) := c06_step E cfg (w_now s) (w_rq s) (w_ans s) (w_obs s).
 Definition st_c08 E cfg a (e : istr) (s : wstep) := c08_step E cfg a (w_now s) (w_rq s) (w_ans s) (w_obs s).
 Definition st_c10 E cfg (a e : istr) (s : wstep) := c10_step E cfg (w_now s) (w_rq s) (w_ans s) (w_obs s).
@@ -654,7 +674,7 @@ Definition c17_history (c : wcase) : bool :=
 
 Definition violates_c01 (c : wcase) : bool := negb (steps_all c st_c01).
 Definition violates_c03 (c : wcase) : bool := negb (c03_history c).
-Definition violates_c04 (c : wcase) : bool := negb (c04_history c).
+Definition violates_c04 (c : wcase) : bool := negb (c04_history c && steps_all c st_c04).
 Definition violates_c06 (c : wcase) : bool := negb (steps_all c st_c06).
 Definition violates_c07 (c : wcase) : bool := negb (c07_history c).
 Definition violates_c08 (c : wcase) : bool := negb (steps_all c st_c08).
